@@ -280,6 +280,8 @@ func handleInsertValues(p *InsertPlan) error {
 			if err != nil {
 				return fmt.Errorf("find table index error: %v", err)
 			}
+		default:
+			return fmt.Errorf("sharding value must be a literal, got %T", valueItem)
 		}
 	}
 
